@@ -22,7 +22,6 @@ func runC14(ctx *core.Ctx) {
 	ctx.Rule("Q2", "Quote/Unquote refuse rather than guess: every nil-error return with non-nil data is dominated by the shape checks (Quote: last byte is newline, utf8.Valid; Unquote: first byte '>' and last byte newline)", 2)
 	ctx.Rule("Q3", "totality of NeedsQuote, Quote, Unquote (bounds engine over all reachable module functions)", 1)
 	ctx.Rule("Q6", "Quote prefixes every line: inside the loop over the input every path to the '>' append establishes a line start (the carried previous byte, starting as a newline, equals newline; or index == 0; or data[i-1] == newline), every path that copies a byte without passing the '>' append has every such test false, and every iteration copies its byte; any extra condition leaves some line without the prefix that Unquote removes from every line", 1)
-	ctx.Rule("Q7", "Unquote removes one prefix per line: no cut-set trimming (Trim/TrimLeft/TrimRight with '>' in the set) and no Replace with a non-negative count on the data; a line that began with '>' before quoting begins with '>>' after it, and only the first may go", 1)
 	ctx.Rule("Q4", "caller protocol: in txtar-c and testscript's script updater every value stored as a txtar file body is either the result of a successful Quote or a value for which NeedsQuote was consulted and returned false", 2)
 
 	parse := ctx.Need("Q1", "txtar", "Parse")
@@ -35,6 +34,7 @@ func runC14(ctx *core.Ctx) {
 	p := ctx.P
 
 	needsQuoteExact(ctx, "Q1", "Q5")
+	scanFromCandidate(ctx, "Q8")
 
 	// ---- Q6: Quote prefixes every line and copies every byte
 	{
@@ -166,33 +166,8 @@ func runC14(ctx *core.Ctx) {
 			ctx.Check(why == "", "Q6", "txtar.Quote#every-line-prefixed", gt[0].Pos(), "inside Quote's loop a '>' is appended exactly at line starts and every byte is copied %s", why)
 		}
 	}
-	// ---- Q7: Unquote removes one prefix per line, never a run of them
-	{
-		g := graph(p, unquote)
-		bad := ""
-		n := 0
-		g.Instrs(func(i ssa.Instruction) {
-			c, ok := i.(*ssa.Call)
-			if !ok {
-				return
-			}
-			name := ssax.CalleeName(&c.Call)
-			switch name {
-			case "bytes.TrimLeft", "bytes.Trim", "bytes.TrimRight", "strings.TrimLeft", "strings.Trim", "strings.TrimRight":
-				if cut, ok := ssax.ConstString(c.Call.Args[1]); ok && strings.Contains(cut, ">") {
-					bad = name + " strips a run of '>' where Quote added exactly one"
-				}
-			case "bytes.TrimPrefix", "strings.TrimPrefix", "bytes.Replace", "bytes.ReplaceAll", "strings.Replace", "strings.ReplaceAll", "bytes.CutPrefix":
-				n++
-			}
-			if (name == "bytes.Replace" || name == "strings.Replace") && len(c.Call.Args) == 4 {
-				if k, ok := ssax.ConstInt(c.Call.Args[3]); ok && k >= 0 {
-					bad = name + " with a non-negative count leaves later lines quoted"
-				}
-			}
-		})
-		ctx.Check(bad == "", "Q7", "txtar.Unquote#one-prefix-per-line", unquote.Pos(), "Unquote never strips a run of '>' bytes and never limits the number of lines it unquotes %s", bad)
-	}
+	unquoteShape(ctx, "Q7")
+	inputReadOnly(ctx, "RO", []*ssa.Function{nq, quote, unquote})
 
 	// ---- Q2
 	checkRefuse := func(f *ssa.Function, need func(facts []ssax.Fact, data ssa.Value) []string) {
@@ -471,6 +446,43 @@ func needsQuoteExact(ctx *core.Ctx, q1, q5 string) {
 				ctx.Check(okNorm, q5, "txtar.NeedsQuote#normalised", c.Pos(), "NeedsQuote searches %s(data), the body with the final newline Format will add: a last line that becomes a marker only once terminated (e.g. \"-- x --\\r\" -> \"-- x --\\r\\n\") must count", shortFn(norm))
 			}
 		}
+	}
+
+}
+
+// unquoteShape implements C14.Q7 (also used by C15, whose round trip restores quoted files with Unquote).
+func unquoteShape(ctx *core.Ctx, rule string) {
+	p := ctx.P
+	ctx.Rule(rule, "Unquote removes one prefix per line: no cut-set trimming (Trim/TrimLeft/TrimRight with '>' in the set) and no Replace with a non-negative count on the data; a line that began with '>' before quoting begins with '>>' after it, and only the first may go", 1)
+	unquote := ctx.Need(rule, "txtar", "Unquote")
+	if unquote == nil {
+		return
+	}
+	{
+		g := graph(p, unquote)
+		bad := ""
+		n := 0
+		g.Instrs(func(i ssa.Instruction) {
+			c, ok := i.(*ssa.Call)
+			if !ok {
+				return
+			}
+			name := ssax.CalleeName(&c.Call)
+			switch name {
+			case "bytes.TrimLeft", "bytes.Trim", "bytes.TrimRight", "strings.TrimLeft", "strings.Trim", "strings.TrimRight":
+				if cut, ok := ssax.ConstString(c.Call.Args[1]); ok && strings.Contains(cut, ">") {
+					bad = name + " strips a run of '>' where Quote added exactly one"
+				}
+			case "bytes.TrimPrefix", "strings.TrimPrefix", "bytes.Replace", "bytes.ReplaceAll", "strings.Replace", "strings.ReplaceAll", "bytes.CutPrefix":
+				n++
+			}
+			if (name == "bytes.Replace" || name == "strings.Replace") && len(c.Call.Args) == 4 {
+				if k, ok := ssax.ConstInt(c.Call.Args[3]); ok && k >= 0 {
+					bad = name + " with a non-negative count leaves later lines quoted"
+				}
+			}
+		})
+		ctx.Check(bad == "", rule, "txtar.Unquote#one-prefix-per-line", unquote.Pos(), "Unquote never strips a run of '>' bytes and never limits the number of lines it unquotes %s", bad)
 	}
 
 }
